@@ -45,6 +45,9 @@ static void task(const mjModel* m, mjData* d, void* arg, int thread_id, int task
 }
 
 static void body() {
+  // executions share the process: start from a clean harness state
+  g_batch = nullptr;
+  g_returned_batches = 0;
   mjData* d = g_d;
   int nworker = 0;
   int batch_no = 0;
@@ -80,6 +83,7 @@ static void body() {
   }
   mju_threadpool(d, 0);    // destructor must join all workers (deadlock otherwise)
   if (d->threadpool) vsched::fail("pool handle not cleared by destroy");
+  for (Batch* b : batches) delete b;
   // a late invocation after everything returned would have tripped the stale-batch check
 }
 
